@@ -2400,14 +2400,19 @@ impl IdmServerProxyWriteTransaction<'_> {
             self.reload_oauth2_client_providers()?;
         }
 
-        // Commit everything.
+        // Commit everything. The query server (and with it the database) goes first: if
+        // that fails, the OAuth2 clients, applications and credential update sessions of
+        // this transaction must not become visible either.
+        self.qs_write.commit()?;
+
+        // Can no longer fail from this point.
         self.applications.commit();
         self.oauth2rs.commit();
         self.cred_update_sessions.commit();
         self.oauth2_client_providers.commit();
 
         trace!("cred_update_session.commit");
-        self.qs_write.commit()
+        Ok(())
     }
 }
 
